@@ -89,6 +89,47 @@ Proof.
   apply name_idx_inj in Ej. subst j. apply in_seq in Hj. lia.
 Qed.
 
+(* no component of the tables is called D_j beyond the components that the struct D defines, for
+   every struct D that is the datatype of a field; and segment rows name their fields *)
+Definition struct_no_extra_comps (p : str * list srow) : bool :=
+  let names := map (name_idx (fst p)) (seq 1 (length (snd p))) in
+  let pre := fst p ++ unbs "_" in
+  forallb (fun q : str * sref => if bstarts pre (fst q) && all_digits (drop (length pre) (fst q))
+                                 then smem (fst q) names else true) (t_components t).
+Definition bad_comp_structs : list str := map fst (filter (fun p => negb (struct_no_extra_comps p)) (t_structs t)).
+Definition dt_not_bad (bad : list str) (r : sref) : bool :=
+  match r with
+  | SSeqDt i => match i_dt i with Some D => negb (smem D bad) | None => true end
+  | _ => true
+  end.
+Definition fields_comp_ok : bool :=
+  let bad := bad_comp_structs in
+  forallb (fun q : str * sref => dt_not_bad bad (snd q)) (t_fields t).
+Definition rows_by_name : bool :=
+  let bad := bad_comp_structs in
+  forallb (fun p : str * sref => match snd p with
+                                 | SSeqIn _ rows _ =>
+                                     forallb (fun r => match r with
+                                                       | SByName FIE _ _ _ => true
+                                                       | SIn _ _ x _ _ => dt_not_bad bad x     (* inline reference *)
+                                                       | _ => false end) rows
+                                 | _ => true end || excluded (fst p)) (t_segments t).
+
+Lemma struct_no_extra_sound D rows j : struct_no_extra_comps (D, rows) = true -> length rows < j ->
+  slookup (name_idx D j) (t_components t) = None.
+Proof.
+  intros H Hj. apply slookup_none. intros Hin. apply in_map_iff in Hin. destruct Hin as [[k v] [E Hin]].
+  cbn [fst] in E. subst k. unfold struct_no_extra_comps in H. cbv zeta in H. cbn [fst snd] in H.
+  rewrite forallb_forall in H. specialize (H _ Hin). cbn [fst] in H.
+  assert (B : bstarts (D ++ unbs "_") (name_idx D j) = true).
+  { unfold name_idx. rewrite app_assoc. apply starts_with_app. }
+  assert (B2 : drop (length (D ++ unbs "_")) (name_idx D j) = nat_to_str j).
+  { unfold name_idx. rewrite app_assoc. apply drop_app. }
+  rewrite B, B2, nat_to_str_all_digits in H. cbn [andb] in H.
+  apply smem_In in H. apply in_map_iff in H. destruct H as [j' [Ej Hj']].
+  apply name_idx_inj in Ej. subst j'. apply in_seq in Hj'. lia.
+Qed.
+
 (* MSH-1 and MSH-2 are ST leaves *)
 Definition st_leafb (row : srow) : bool :=
   match row_ref t row with
@@ -111,7 +152,7 @@ Definition seg_tables_ok : bool :=
   forallb (fun p : str * sref => match snd p with
                                  | SSeqIn _ rows _ => no_extra_fields (fst p) (length rows)
                                  | _ => true end) (t_segments t) &&
-  msh_okb.
+  msh_okb && fields_comp_ok && rows_by_name.
 
 (* ---- soundness ---- *)
 Hypothesis Hnd : NoDup (map fst (t_structs t)).
@@ -164,7 +205,9 @@ Hypothesis Hgood : forallb (fun d => smem d good_names) (good_structs t) = true.
 Lemma wf_field_row_sound row : wf_field_row t (good_structs t) row = true -> field_row_ok t row.
 Proof.
   unfold wf_field_row, wf_field_ref, field_row_ok. destruct (row_ref t row) as [[i|i|c cs oi|]|]; try discriminate.
-  - intros _. exists (SLeaf i). auto.
+  - intros H. exists (SLeaf i). split; [reflexivity|]. unfold leaf_ok in H.
+    destruct (i_dt i) as [d|]; [|exact I]. apply orb_prop in H. destruct H as [H|H]; [now left|right].
+    cbn [andb] in H. now apply streqb_eq.
   - destruct (i_dt i) as [D|] eqn:E; [|discriminate]. intros H.
     apply smem_In in H. rewrite forallb_forall in Hgood. specialize (Hgood D H).
     destruct (good_names_sound D Hgood) as [rows [Hl Hg]]. exists (SSeqDt i). split; [reflexivity|].
@@ -221,11 +264,14 @@ Lemma shipped_segment_ok v t sn r : tables_of v = Some t -> In (sn, r) (t_segmen
   exists rows, r = SSeqIn false rows None /\
     length sn = 3 /\ upper sn = sn /\ streqb sn (unbs "MSH") = false /\ valid_z_segment_name sn = false /\
     rows_contiguous sn FIE 1 rows = true /\ (forall row, In row rows -> field_row_ok t row) /\
-    (forall i, length rows < i -> slookup (name_idx sn i) (t_fields t) = None).
+    (forall i, length rows < i -> slookup (name_idx sn i) (t_fields t) = None) /\
+    (forall row inf D drows, In row rows -> row_ref t row = Some (SSeqDt inf) -> i_dt inf = Some D ->
+       slookup D (t_structs t) = Some drows -> forall j, length drows < j -> slookup (name_idx D j) (t_components t) = None).
 Proof.
   intros Ht Hi Ha Hm.
   pose proof (lookup_forallb (fun _ x => seg_tables_ok x) all_tables v t all_seg_tables_ok Ht) as F.
-  unfold seg_tables_ok in F. apply andb_prop in F. destruct F as [F _]. apply andb_prop in F. destruct F as [F FX].
+  unfold seg_tables_ok in F. apply andb_prop in F. destruct F as [F FR]. apply andb_prop in F. destruct F as [F FC].
+  apply andb_prop in F. destruct F as [F _]. apply andb_prop in F. destruct F as [F FX].
   do 3 (apply andb_prop in F; destruct F as [F ?F]).
   apply nodupb_streqb_NoDup in F. apply nodupb_streqb_NoDup in F2.
   split; [now apply In_slookup|].
@@ -233,8 +279,24 @@ Proof.
     length sn = 3 /\ upper sn = sn /\ streqb sn (unbs "MSH") = false /\ valid_z_segment_name sn = false /\
     rows_contiguous sn FIE 1 rows = true /\ (forall row, In row rows -> field_row_ok t row)).
   { intros [rows [-> R]]. exists rows. split; [reflexivity|]. repeat (destruct R as [?R R]). repeat split; auto.
-    intros i Hlt. rewrite forallb_forall in FX. specialize (FX _ Hi). cbn [fst snd] in FX.
-    now apply (no_extra_fields_sound t sn (length rows) i). }
+    - intros i Hlt. rewrite forallb_forall in FX. specialize (FX _ Hi). cbn [fst snd] in FX.
+      now apply (no_extra_fields_sound t sn (length rows) i).
+    - intros row inf D drows Hrow Hr Hd Hld j Hj.
+      unfold rows_by_name in FR. cbv zeta in FR. rewrite forallb_forall in FR. specialize (FR _ Hi). cbn [fst snd] in FR.
+      apply orb_prop in FR. destruct FR as [FR|FR].
+      2:{ exfalso. unfold excluded in FR. apply orb_prop in FR. destruct FR as [E|E]; apply streqb_eq in E; congruence. }
+      rewrite forallb_forall in FR. specialize (FR _ Hrow).
+      assert (FB : dt_not_bad (bad_comp_structs t) (SSeqDt inf) = true).
+      { destruct row as [k nm mn mx|k nm x mn mx|]; try discriminate.
+        - destruct k; try discriminate. cbn [row_ref table_of] in Hr. apply slookup_in in Hr.
+          unfold fields_comp_ok in FC. cbv zeta in FC. rewrite forallb_forall in FC. exact (FC _ Hr).
+        - cbn [row_ref] in Hr. injection Hr as ->. exact FR. }
+      cbn [dt_not_bad] in FB. rewrite Hd in FB. apply negb_true_iff in FB. rename FB into FC'.
+      apply (struct_no_extra_sound t D drows j); [|exact Hj].
+      destruct (struct_no_extra_comps t (D, drows)) eqn:Es; [reflexivity|exfalso].
+      assert (smem D (bad_comp_structs t) = true) as Hb; [|rewrite Hb in FC'; discriminate].
+      unfold smem. apply existsb_exists. exists D. split; [|apply streqb_refl].
+      unfold bad_comp_structs. apply (in_map fst _ (D, drows)). apply filter_In. split; [now apply slookup_in|now rewrite Es]. }
   apply (wf_seg_sound t F F1).
   - apply (report_ok_seg t (sn, r)); auto. exact (Oblig.WfAll.tables_of_wf v t Ht).
   - rewrite forallb_forall in F0. specialize (F0 _ Hi). cbn [fst] in F0.
@@ -260,7 +322,8 @@ Lemma shipped_msh_ok v t : tables_of v = Some t ->
 Proof.
   intros Ht.
   pose proof (lookup_forallb (fun _ x => seg_tables_ok x) all_tables v t all_seg_tables_ok Ht) as F.
-  unfold seg_tables_ok in F. apply andb_prop in F. destruct F as [F FM]. apply andb_prop in F. destruct F as [F _].
+  unfold seg_tables_ok in F. do 2 (apply andb_prop in F; destruct F as [F _]).
+  apply andb_prop in F. destruct F as [F FM]. apply andb_prop in F. destruct F as [F _].
   do 3 (apply andb_prop in F; destruct F as [F ?F]).
   apply nodupb_streqb_NoDup in F.
   unfold msh_okb in FM. destruct (slookup (unbs "MSH") (t_segments t)) as [r|] eqn:El; [|discriminate].
